@@ -28,6 +28,16 @@
 extern void COTmrLock(void);
 extern void COTmrUnlock(void);
 
+#ifdef CO_VERIF_SIM
+/* verification hook (off by default): lets a simulator inject the timer
+ * interrupt at statement boundaries outside the critical sections
+ */
+extern void COVerifYield(int site);
+#define CO_VERIF_YIELD(site)    COVerifYield(site)
+#else
+#define CO_VERIF_YIELD(site)    ((void)0)
+#endif
+
 /******************************************************************************
 * PRIVATE FUNCTION PROTOTYPES
 ******************************************************************************/
@@ -153,6 +163,7 @@ int16_t COTmrCreate(CO_TMR      *tmr,
         return -1;
     }
 
+    CO_VERIF_YIELD(1);
     COTmrLock();
     if (tmr->Acts == 0) {
         tmr->Node->Error = CO_ERR_TMR_NO_ACT;
@@ -160,14 +171,18 @@ int16_t COTmrCreate(CO_TMR      *tmr,
         return -1;
     }
 
+    CO_VERIF_YIELD(2);
     act             = tmr->Acts;
     tmr->Acts       = act->Next;
+    CO_VERIF_YIELD(3);
     act->Next       = 0;
     act->Func       = func;
     act->Para       = para;
     act->CycleTicks = cycleTicks;
 
+    CO_VERIF_YIELD(4);
     tn = COTmrInsert(tmr, startTicks, act);
+    CO_VERIF_YIELD(5);
     if (tn == (CO_TMR_TIME*)0) {
         act->CycleTicks  = 0;
         act->Para        = 0;
@@ -181,6 +196,7 @@ int16_t COTmrCreate(CO_TMR      *tmr,
     }
 
     COTmrUnlock();
+    CO_VERIF_YIELD(6);
 
     return (result);
 }
@@ -201,6 +217,7 @@ int16_t COTmrDelete(CO_TMR *tmr, int16_t actId)
         return -1;
     }
 
+    CO_VERIF_YIELD(10);
     COTmrLock();
 
     /* search in used timer list */
@@ -230,6 +247,7 @@ int16_t COTmrDelete(CO_TMR *tmr, int16_t actId)
         }
     }
 
+    CO_VERIF_YIELD(11);
     /* not found: search in elapsed timer list */
     if (del == 0) {
         tx = tmr->Elapsed;
@@ -261,6 +279,7 @@ int16_t COTmrDelete(CO_TMR *tmr, int16_t actId)
         }
     }
 
+    CO_VERIF_YIELD(12);
     /* delete action */
     if (del != 0) {
         del->CycleTicks = 0;
@@ -268,6 +287,7 @@ int16_t COTmrDelete(CO_TMR *tmr, int16_t actId)
         del->Func       = (CO_TMR_FUNC)0;
         del->Next       = tmr->Acts;
         tmr->Acts       = del;
+        CO_VERIF_YIELD(13);
 
         if (tx != 0) {
             if (tx->Action == (CO_TMR_ACTION*)0) {
@@ -289,7 +309,9 @@ int16_t COTmrDelete(CO_TMR *tmr, int16_t actId)
             result = 0;
         }
     }
+    CO_VERIF_YIELD(14);
     COTmrUnlock();
+    CO_VERIF_YIELD(15);
 
     return (result);
 }
@@ -346,9 +368,12 @@ void COTmrProcess(CO_TMR *tmr)
     void          *para;
 
     while (tmr->Elapsed != 0) {
+        CO_VERIF_YIELD(20);
         COTmrLock();
         tn            = tmr->Elapsed;
+        CO_VERIF_YIELD(21);
         tmr->Elapsed  = tn->Next;
+        CO_VERIF_YIELD(22);
 
         act           = tn->Action;
         tn->Action    = 0;
@@ -356,10 +381,12 @@ void COTmrProcess(CO_TMR *tmr)
         tn->Delta     = 0;
         tn->Next      = tmr->Free;
         tmr->Free     = tn;
+        CO_VERIF_YIELD(23);
         COTmrUnlock();
 
         /* loop through all actions of elapsed timer event */
         while (act != 0) {
+            CO_VERIF_YIELD(24);
             next      = act->Next;
             act->Next = 0;
             func      = act->Func;
@@ -369,12 +396,14 @@ void COTmrProcess(CO_TMR *tmr)
                 act->Para = 0;
                 act->Func = (CO_TMR_FUNC)0;
                 COTmrLock();
+                CO_VERIF_YIELD(25);
                 act->Next = tmr->Acts;
                 tmr->Acts = act;
                 COTmrUnlock();
 
             } else {
                 COTmrLock();
+                CO_VERIF_YIELD(26);
                 res = COTmrInsert(tmr, act->CycleTicks, act);
                 COTmrUnlock();
                 if (res == (CO_TMR_TIME*)0) {
@@ -382,7 +411,9 @@ void COTmrProcess(CO_TMR *tmr)
                 }
             }
             /* execute callback function */
+            CO_VERIF_YIELD(27);
             func(para);
+            CO_VERIF_YIELD(28);
             act = next;
         }
     }
@@ -433,6 +464,7 @@ static CO_TMR_TIME *COTmrInsert(CO_TMR *tmr, uint32_t dTnew, CO_TMR_ACTION *acti
     CO_TMR_TIME *tn = 0;
     CO_IF       *cif;
 
+    CO_VERIF_YIELD(30);
     cif = &tmr->Node->If;
     tx  = tmr->Use;
 
@@ -440,6 +472,7 @@ static CO_TMR_TIME *COTmrInsert(CO_TMR *tmr, uint32_t dTnew, CO_TMR_ACTION *acti
     if (tx == 0) {
         /* fetch a timer */
         tn            = tmr->Free;
+        CO_VERIF_YIELD(31);
         tmr->Free     = tn->Next;
         /* setup first timer */
         tn->Delta     = dTnew;
@@ -447,6 +480,7 @@ static CO_TMR_TIME *COTmrInsert(CO_TMR *tmr, uint32_t dTnew, CO_TMR_ACTION *acti
         tn->ActionEnd = action;
         tn->Next      = 0;
         tmr->Use      = tn;
+        CO_VERIF_YIELD(32);
         COIfTimerReload(cif, tn->Delta);
         COIfTimerStart(cif);
 
@@ -454,6 +488,7 @@ static CO_TMR_TIME *COTmrInsert(CO_TMR *tmr, uint32_t dTnew, CO_TMR_ACTION *acti
     } else {
         /* get remaining time to first event */
         dTx = COIfTimerDelay(cif);
+        CO_VERIF_YIELD(33);
 
         /* find position while new time interval is not reached and
          * no is timer added 
@@ -485,6 +520,7 @@ static CO_TMR_TIME *COTmrInsert(CO_TMR *tmr, uint32_t dTnew, CO_TMR_ACTION *acti
                     /* setup timer in front of next timer */
                     tn->Next        = tx->Next;
                     tx->Next        = tn;
+                    CO_VERIF_YIELD(34);
                     tn->Delta       = dTnew -
                         (dTx - tn->Next->Delta);
                     tn->Action      = action;
@@ -519,11 +555,13 @@ static CO_TMR_TIME *COTmrInsert(CO_TMR *tmr, uint32_t dTnew, CO_TMR_ACTION *acti
                 tn->ActionEnd = action;
                 tn->Next      = tx;
                 tmr->Use      = tn;
+                CO_VERIF_YIELD(35);
                 tx->Delta     = dTx - dTnew;
                 COIfTimerReload(cif, tn->Delta);
             }
         }
     }
+    CO_VERIF_YIELD(36);
     return tn;
 }
 
@@ -532,6 +570,7 @@ static void COTmrRemove(CO_TMR *tmr, CO_TMR_TIME *tx)
     CO_TMR_TIME *tn;
     CO_IF       *cif;
 
+    CO_VERIF_YIELD(40);
     cif = &tmr->Node->If;
     if (tx != 0) {
         /* timer is first in list */
@@ -544,6 +583,7 @@ static void COTmrRemove(CO_TMR *tmr, CO_TMR_TIME *tx)
             /* remove first used timer in list */
             } else {
                 tx->Next->Delta += COIfTimerDelay(cif);
+                CO_VERIF_YIELD(41);
                 tmr->Use = tx->Next;
                 COIfTimerReload(cif, tmr->Use->Delta);
             }
@@ -560,6 +600,7 @@ static void COTmrRemove(CO_TMR *tmr, CO_TMR_TIME *tx)
                 /* remove next timer in list */
                 if (tn->Next == tx) {
                     tn->Next = tx->Next;
+                    CO_VERIF_YIELD(42);
 
                     /* timer was within list */
                     if (tx->Next != 0) {
